@@ -426,7 +426,7 @@ IsKnown(sol, fn) == \E i \in 1..Len(KnownKeys) : KnownKeys[i][1] = sol /\ KnownK
 \* diagnostics (ERRSTAT=1): print the error of every judged value in units of u_p * mag, as a power of two
 ErrStat(sol, fn, p, ret, e) ==
   IF "ERRSTAT" \in DOMAIN IOEnv /\ IOEnv.ERRSTAT = "1"
-  THEN PrintT(<<"ERRSTAT", sol, fn, p, NErrBits(NFromStr(ret), e, p)>>) ELSE TRUE
+  THEN PrintT("ERRSTAT " \o sol \o " " \o fn \o " " \o p \o " " \o ToString(NErrBits(NFromStr(ret), e, p))) ELSE TRUE
 
 \* known deviations are judged against their recorded variant (when one is recorded: the result must
 \* still match it, so only the listed deviation is tolerated); everything else against the property
